@@ -107,8 +107,8 @@ Proof.
   (* the single polynomial *)
   destruct (polys_from_key F t (sharing_of F c) polys (hK_len F c) (hK_wf F F_bytes c) Hp) as (cs & el & Hpolys & _ & _).
   destruct (sharing_lengths c) as (LC & LD & LJ).
-  assert (HcM : length (cM c) = 32%nat) by apply length_r0.
-  assert (HcR : length (cR c) = 32%nat) by apply length_r1.
+  assert (HcM : length (cM c) = 32%nat) by exact (length_r0 rnd).
+  assert (HcR : length (cR c) = 32%nat) by exact (length_r1 rnd).
   split; [|split].
   - apply Forall_forall. intros mm Hin. apply in_map_iff in Hin. destruct Hin as [cl [<- Hcl']].
     rewrite Forall_forall in Hcl. destruct (Hcl cl Hcl') as [Hpay _].
@@ -120,7 +120,7 @@ Proof.
       * apply (fits32_small _ 32); [rewrite LC; exact HcM|reflexivity].
       * apply (fits32_small _ 32); [rewrite LD; exact HcR|reflexivity].
     + eapply fits32_small; [apply mk_share_bytes_len|]. rewrite LC, LD, LJ, HcM, HcR. reflexivity.
-    + apply (fits32_small _ 32); [apply length_r2|reflexivity].
+    + apply (fits32_small _ 32); [exact (length_r2 rnd)|reflexivity].
   - intros picked Hincl Hne Hcnt.
     assert (Hshape : map mShare picked = map (mk_share (cA c) (sharing_of F c) polys) (map (fun mm => sx (aS (mShare mm))) picked)).
     { rewrite map_map. apply map_ext_in. intros mm Hin. apply Hincl in Hin. apply in_map_iff in Hin.
@@ -132,5 +132,203 @@ Proof.
     + unfold report_of at 1. cbn [mCt]. change (cM c) with (r0 F rnd). rewrite ct_roundtrip.
       inversion Hcl as [|? ? [_ Ha] _]; subst. apply payload_parse; assumption.
     + apply IH. inversion Hcl; assumption.
+Qed.
+
+(* ---------- C04: what independent clients of one triple share ---------- *)
+Theorem reports_static m e (t : N) rnd clients msgs :
+  star_reports F m e t rnd clients = Ok (Some msgs) ->
+  exists polys, polys_from F t (sharing_of F (commune_of F t rnd)) = Ok (Some polys) /\
+  Forall2 (fun mm cl =>
+     mTag mm = r2 F rnd /\
+     mCt mm = ct_new F (derive_ske_key F (r0 F rnd) e) (payload m (fst cl)) Params.lbl_star_encrypt /\
+     aA (mShare mm) = t /\ aS (mShare mm) = evaluate polys (snd cl) /\
+     aC (mShare mm) = hC (sharing_of F (commune_of F t rnd)) /\
+     aD (mShare mm) = hD (sharing_of F (commune_of F t rnd)) /\
+     aJ (mShare mm) = hJ (sharing_of F (commune_of F t rnd))) msgs clients.
+Proof.
+  intros Hs. destruct (star_reports_inv _ _ _ _ _ _ Hs) as (polys & Hp & ->). exists polys. split; [exact Hp|].
+  clear Hs. induction clients as [|cl clients IH]; cbn [map]; constructor; [repeat split|exact IH].
+Qed.
+
+(* the WASM entry point derives the same key, share and tag as a report of the same triple *)
+Theorem wasm_material_spec m e (t : N) x k sh tg :
+  wasm_material F m e t x = Ok (Some (k, sh, tg)) ->
+  k = derive_ske_key F (r0 F (sample_local F m e t)) e /\ tg = r2 F (sample_local F m e t) /\
+  share_at F (commune_of F t (sample_local F m e t)) x = Ok (Some sh).
+Proof.
+  unfold wasm_material. cbv zeta.
+  destruct (share_at F (commune_of F t (sample_local F m e t)) x) as [[s|]| |]; intros H;
+    [|discriminate H|discriminate H|discriminate H].
+  apply Ok_inj in H. assert (H' : (derive_ske_key F (r0 F (sample_local F m e t)) e, s, r2 F (sample_local F m e t)) = (k, sh, tg)) by congruence.
+  clear H. assert (E1 : derive_ske_key F (r0 F (sample_local F m e t)) e = k) by congruence.
+  assert (E2 : s = sh) by congruence. assert (E3 : r2 F (sample_local F m e t) = tg) by congruence.
+  subst. repeat split.
+Qed.
+
+(* ---------- C04: derivations are injective up to an explicit digest collision ---------- *)
+Definition DigestCollision (lbl : bytes) : Prop :=
+  exists k ads k' ads', (k, ads) <> (k', ads') /\ strobe_digest F k ads lbl = strobe_digest F k' ads' lbl.
+
+Lemma le32_inj a b : (a < two32)%N -> (b < two32)%N -> le32 a = le32 b -> a = b.
+Proof.
+  intros Ha Hb H. apply (f_equal le_of_bytes) in H. unfold le32 in H.
+  rewrite !le_of_bytes_of_le_small in H by assumption. exact H.
+Qed.
+
+Lemma pair_list_neq1 (k k' : bytes) (a a' : list bytes) : k <> k' -> (k, a) <> (k', a').
+Proof. intros H E. apply H. exact (f_equal fst E). Qed.
+Lemma pair_list_neq2 (k k' : bytes) (a a' : list bytes) : a <> a' -> (k, a) <> (k', a').
+Proof. intros H E. apply H. exact (f_equal snd E). Qed.
+Lemma two_list_neq1 (e e' x x' : bytes) : e <> e' -> [e; x] <> [e'; x'].
+Proof. intros H E. apply H. exact (f_equal (fun l => hd [] l) E). Qed.
+Lemma two_list_neq2 (e e' x x' : bytes) : x <> x' -> [e; x] <> [e'; x'].
+Proof. intros H E. apply H. exact (f_equal (fun l => hd [] (tl l)) E). Qed.
+Lemma one_list_neq (e e' : bytes) : e <> e' -> [e] <> [e'].
+Proof. intros H E. apply H. exact (f_equal (fun l => hd [] l) E). Qed.
+
+Theorem sample_local_injective m e (t : N) m' e' (t' : N) : (t < two32)%N -> (t' < two32)%N ->
+  sample_local F m e t = sample_local F m' e' t' ->
+  (m, e, t) = (m', e', t') \/ DigestCollision Params.lbl_star_sample_local.
+Proof.
+  intros Ht Ht' H. unfold sample_local, digest in H.
+  destruct (list_eq_dec N.eq_dec m m') as [Em|Em].
+  - destruct (list_eq_dec N.eq_dec e e') as [Ee|Ee].
+    + destruct (N.eq_dec t t') as [Et|Et]; [left; clear H; subst; reflexivity|].
+      right. exists m, [e; le32 t], m', [e'; le32 t']. split; [|exact H]. clear H.
+      apply pair_list_neq2, two_list_neq2. intro E. apply Et. apply le32_inj; assumption.
+    + right. exists m, [e; le32 t], m', [e'; le32 t']. split; [|exact H]. clear H.
+      apply pair_list_neq2, two_list_neq1. exact Ee.
+  - right. exists m, [e; le32 t], m', [e'; le32 t']. split; [|exact H]. clear H. apply pair_list_neq1. exact Em.
+Qed.
+
+Theorem tag_injective rnd rnd' : r2 F rnd = r2 F rnd' -> rnd = rnd' \/ DigestCollision Params.lbl_star_derive_randoms.
+Proof.
+  intros H. unfold r2, derive_random_value, digest in H.
+  destruct (list_eq_dec N.eq_dec rnd rnd') as [E|E]; [left; exact E|].
+  right. exists rnd, [[2%N]], rnd', [[2%N]]. split; [|exact H]. apply pair_list_neq1. exact E.
+Qed.
+Theorem r0_injective rnd rnd' : r0 F rnd = r0 F rnd' -> rnd = rnd' \/ DigestCollision Params.lbl_star_derive_randoms.
+Proof.
+  intros H. unfold r0, derive_random_value, digest in H.
+  destruct (list_eq_dec N.eq_dec rnd rnd') as [E|E]; [left; exact E|].
+  right. exists rnd, [[0%N]], rnd', [[0%N]]. split; [|exact H]. apply pair_list_neq1. exact E.
+Qed.
+(* keys are 16-byte truncations: equal keys mean equal (r0, epoch) or two digests agreeing in their first 16 bytes *)
+Definition TruncatedDigestCollision (lbl : bytes) (n : nat) : Prop :=
+  exists k ads k' ads', (k, ads) <> (k', ads') /\ firstn n (strobe_digest F k ads lbl) = firstn n (strobe_digest F k' ads' lbl).
+Theorem key_injective r e r' e' : derive_ske_key F r e = derive_ske_key F r' e' ->
+  (r, e) = (r', e') \/ TruncatedDigestCollision Params.lbl_star_derive_ske_key Params.star_key_len.
+Proof.
+  intros H. unfold derive_ske_key, digest in H.
+  destruct (list_eq_dec N.eq_dec r r') as [Er|Er].
+  - destruct (list_eq_dec N.eq_dec e e') as [Ee|Ee]; [left; clear H; subst; reflexivity|].
+    right. exists r, [e], r', [e']. split; [|exact H]. apply pair_list_neq2, one_list_neq. exact Ee.
+  - right. exists r, [e], r', [e']. split; [|exact H]. apply pair_list_neq1. exact Er.
+Qed.
+
+(* ---------- C03: the payload cipher is a plain stream cipher on its first block ---------- *)
+Definition ks_state (k l : bytes) : strobe := begin_op F (key F (new F l) k) fl_send_enc.
+
+Lemma nth_upd_other l i j f : i <> j -> nth i (upd l j f) 0%N = nth i l 0%N.
+Proof.
+  revert i j. induction l as [|h t IH]; intros i j Hne; [destruct j; reflexivity|].
+  destruct j as [|j]; destruct i as [|i]; cbn [upd nth]; try reflexivity; [congruence|apply IH; congruence].
+Qed.
+
+Lemma adv_no_wrap s l : S (pos s) <> rate ->
+  adv F s l = {| st := l; pos := S (pos s); pos_begin := pos_begin s; is_recv := is_recv s |}.
+Proof. intros H. unfold adv. cbn [pos]. destruct (Nat.eqb (S (pos s)) rate) eqn:Er; [apply Nat.eqb_eq in Er; contradiction|reflexivity]. Qed.
+
+Lemma stream_block : forall d s i, (pos s + length d <= rate)%nat -> (i < length d)%nat ->
+  nth i (snd (mapacc (absorb_set1 F) s d)) 0%N = N.lxor (nth (pos s + i) (st s) 0%N) (nth i d 0%N).
+Proof.
+  induction d as [|b d IH]; intros s i Hlen Hi; [cbn in Hi; lia|]. cbn [mapacc].
+  unfold absorb_set1 at 1.
+  destruct (mapacc (absorb_set1 F) (adv F s (upd (st s) (pos s) (fun _ => N.lxor (cur s) b))) d) as [s2 cs] eqn:E. cbn [snd].
+  destruct i as [|i]; cbn [nth].
+  - rewrite Nat.add_0_r. reflexivity.
+  - cbn [length] in Hlen, Hi.
+    rewrite adv_no_wrap in E by lia.
+    pose proof (IH {| st := upd (st s) (pos s) (fun _ => N.lxor (cur s) b); pos := S (pos s); pos_begin := pos_begin s; is_recv := is_recv s |} i) as IH'.
+    rewrite E in IH'. cbn [snd pos st] in IH'.
+    rewrite IH' by lia.
+    rewrite nth_upd_other by lia. f_equal. f_equal. lia.
+Qed.
+
+Lemma begin_core_pos0 s fl : has fl fC = true -> pos (begin_core F s fl) = 0%nat.
+Proof.
+  intros HC. unfold begin_core. rewrite HC. cbn [andb].
+  destruct (Nat.eqb (pos _) 0) eqn:E; cbn [negb]; [apply Nat.eqb_eq in E; exact E|reflexivity].
+Qed.
+Lemma ks_state_pos0 k l : pos (ks_state k l) = 0%nat.
+Proof.
+  unfold ks_state. rewrite begin_op_send; try reflexivity.
+  - apply begin_core_pos0. reflexivity.
+  - rewrite key_recv, new_recv. discriminate.
+Qed.
+
+(* ciphertext byte i (i < 166) = payload byte i XOR a keystream byte that does not depend on the payload *)
+Theorem first_block_stream k l p i : (i < length p)%nat -> (i < rate)%nat ->
+  nth i (ct_new F k p l) 0%N = N.lxor (nth i (st (ks_state k l)) 0%N) (nth i p 0%N).
+Proof.
+  intros Hi Hr. unfold ct_new, send_enc. fold (ks_state k l).
+  pose proof (ks_state_pos0 k l) as H0.
+  (* only the first rate bytes matter: split the payload *)
+  rewrite <- (firstn_skipn rate p) at 1.
+  assert (G : forall d1 d2 s, snd (mapacc (absorb_set1 F) s (d1 ++ d2)) =
+              snd (mapacc (absorb_set1 F) s d1) ++ snd (mapacc (absorb_set1 F) (fst (mapacc (absorb_set1 F) s d1)) d2)).
+  { induction d1 as [|b d1 IHd]; intros d2 s; cbn [app mapacc fst snd]; [reflexivity|].
+    destruct (absorb_set1 F s b) as [s1 o]. specialize (IHd d2 s1).
+    destruct (mapacc (absorb_set1 F) s1 (d1 ++ d2)) as [sa ca]. destruct (mapacc (absorb_set1 F) s1 d1) as [sb cb].
+    cbn [fst snd] in *. rewrite IHd. reflexivity. }
+  rewrite G. rewrite app_nth1 by (rewrite length_mapacc, firstn_length; lia).
+  rewrite stream_block by (rewrite ?H0, firstn_length; lia). rewrite H0. cbn [Nat.add].
+  f_equal. rewrite <- (firstn_skipn rate p) at 2. rewrite app_nth1 by (rewrite firstn_length; lia). reflexivity.
+Qed.
+
+(* hence: two payloads under one key -- the ciphertext difference IS the payload difference, byte for byte *)
+Theorem keystream_reuse k l p1 p2 i : (i < length p1)%nat -> (i < length p2)%nat -> (i < rate)%nat ->
+  N.lxor (nth i (ct_new F k p1 l) 0%N) (nth i (ct_new F k p2 l) 0%N) = N.lxor (nth i p1 0%N) (nth i p2 0%N).
+Proof.
+  intros H1 H2 Hr. rewrite !first_block_stream by assumption.
+  set (a := nth i (st (ks_state k l)) 0%N). set (x := nth i p1 0%N). set (y := nth i p2 0%N).
+  rewrite N.lxor_assoc, <- (N.lxor_assoc x a y), (N.lxor_comm x a), N.lxor_assoc, <- N.lxor_assoc, N.lxor_nilpotent, N.lxor_0_l.
+  reflexivity.
+Qed.
+
+(* the same after any common prefix: the two states agree after the prefix, so the relation holds up
+   to the end of the STROBE block that contains the first differing payload byte *)
+Lemma mapacc_app : forall (d1 d2 : bytes) s,
+  snd (mapacc (absorb_set1 F) s (d1 ++ d2)) =
+  snd (mapacc (absorb_set1 F) s d1) ++ snd (mapacc (absorb_set1 F) (fst (mapacc (absorb_set1 F) s d1)) d2).
+Proof.
+  induction d1 as [|b d1 IHd]; intros d2 s; cbn [app mapacc fst snd]; [reflexivity|].
+  destruct (absorb_set1 F s b) as [s1 o]. specialize (IHd d2 s1).
+  destruct (mapacc (absorb_set1 F) s1 (d1 ++ d2)) as [sa ca]. destruct (mapacc (absorb_set1 F) s1 d1) as [sb cb].
+  cbn [fst snd] in *. rewrite IHd. reflexivity.
+Qed.
+
+Definition state_after (k l pre : bytes) : strobe := fst (mapacc (absorb_set1 F) (ks_state k l) pre).
+
+Theorem keystream_reuse_after_prefix k l pre p1 p2 i :
+  (pos (state_after k l pre) + i < rate)%nat -> (i < length p1)%nat -> (i < length p2)%nat ->
+  N.lxor (nth (length pre + i) (ct_new F k (pre ++ p1) l) 0%N) (nth (length pre + i) (ct_new F k (pre ++ p2) l) 0%N)
+  = N.lxor (nth i p1 0%N) (nth i p2 0%N).
+Proof.
+  intros Hr H1 H2. unfold ct_new, send_enc. fold (ks_state k l).
+  rewrite !mapacc_app. fold (state_after k l pre).
+  assert (Hl : length (snd (mapacc (absorb_set1 F) (ks_state k l) pre)) = length pre) by apply length_mapacc.
+  rewrite !app_nth2 by lia. rewrite Hl. replace (length pre + i - length pre)%nat with i by lia.
+  set (s := state_after k l pre) in *.
+  assert (G : forall p, (i < length p)%nat ->
+            nth i (snd (mapacc (absorb_set1 F) s p)) 0%N = N.lxor (nth (pos s + i) (st s) 0%N) (nth i p 0%N)).
+  { intros p Hp. rewrite <- (firstn_skipn (S i) p) at 1. rewrite mapacc_app.
+    rewrite app_nth1 by (rewrite length_mapacc, firstn_length; lia).
+    rewrite stream_block by (rewrite firstn_length; lia).
+    f_equal. rewrite <- (firstn_skipn (S i) p) at 2. rewrite app_nth1 by (rewrite firstn_length; lia). reflexivity. }
+  rewrite !G by assumption.
+  set (a := nth (pos s + i) (st s) 0%N). set (x := nth i p1 0%N). set (y := nth i p2 0%N).
+  rewrite N.lxor_assoc, <- (N.lxor_assoc x a y), (N.lxor_comm x a), N.lxor_assoc, <- N.lxor_assoc, N.lxor_nilpotent, N.lxor_0_l.
+  reflexivity.
 Qed.
 End SF.
